@@ -84,6 +84,10 @@ def run(ctx):
             out, v = add_parse(text, kind)
             if out == 'ok':
                 ctx.fail('two_slashes_accepted', f'{text!r} (two unbracketed slashes at one level) was read as {str(v)!r}', {'text': text})
+            elif v in ('junk:Functor', 'junk:Atom'):
+                # no exception, a category object came back (with a bracket or a slash where a category belongs): read as something else, not rejected
+                ctx.fail('two_slashes_accepted', f'{text!r} (two unbracketed slashes at one level) was not rejected: Category.parse returned an ill-formed {v[5:]} object',
+                         {'text': text})
 
     def balanced_outer(ts):
         """does the first bracket close at the very end?"""
@@ -159,6 +163,28 @@ def run(ctx):
             a, b = (gen.rand_cat(rng, 'en', depth=rng.randint(0, 2), slashes=gen.SLASHES) for _ in range(2))
             if gen.wf_py(a) and gen.wf_py(b):
                 oracle_two_slashes(c, a, b, 'two-slashes')
+
+    # 3b. three-part features written with their pairs in ANY order (and with other names): the text is the value's own text, so it reads back and prints unchanged
+    ja_texts = [t for t in gen.inventory('ja') if '=' in t]
+    for _ in range(120 if ctx.quick else 1500):
+        t = rng.choice(ja_texts)
+
+        def shuffle(m_):
+            pairs = m_.group(1).split(',')
+            if len(pairs) == 3:
+                rng.shuffle(pairs)
+                if rng.random() < 0.3:
+                    k_ = rng.randrange(3)
+                    pairs[k_] = rng.choice(['a', 'zz', 'case', 'fin', 'num']) + '=' + pairs[k_].split('=', 1)[1]
+            return '[' + ','.join(pairs) + ']'
+        text = re.sub(r'\[([^\]]*)\]', shuffle, t)
+        out, v = add_parse(text, 'permuted-feature-pairs')
+        if out == 'ok':
+            s_ = add_show(v, 'permuted-feature-pairs')
+            if strip_brackets(s_) != strip_brackets(text) or Category.parse(s_) != v:
+                ctx.fail('roundtrip_text', f'text {text!r} (three-part features with their pairs in another order) is printed back as {s_!r}', {'text': text})
+        else:
+            ctx.fail('roundtrip_text', f'text {text!r} (three-part features with their pairs in another order) is not read: {v}', {'text': text})
 
     # 4. malformed stream: model and implementation must agree on Ok(value) / not-Ok
     for _ in range(300 if ctx.quick else 5000):
